@@ -101,7 +101,11 @@ func (c *verifClusterStub) CreateCollection(col models.Collection) error {
 func (c *verifClusterStub) ListCollections(userId string) ([]models.Collection, error) {
 	c.calls++
 	c.users = append(c.users, userId)
-	return []models.Collection{{UserId: userId, Id: "abc"}}, c.err()
+	// the user's collections: one made through v1 and one of the chosen kind
+	cols := []models.Collection{{UserId: userId, Id: "abc", IndexSchema: c.schema}}
+	verifSchemaKind = 0
+	cols = append(cols, models.Collection{UserId: userId, Id: "first", IndexSchema: verifSchema()})
+	return cols, c.err()
 }
 func (c *verifClusterStub) DeleteCollection(col models.Collection) ([]string, error) {
 	c.note(col)
@@ -155,6 +159,8 @@ func verifSchema() models.IndexSchema {
 		return models.IndexSchema{"embedding": {Type: models.IndexTypeVectorVamana, VectorVamana: vam}}
 	case 2:
 		return models.IndexSchema{"vector": {Type: models.IndexTypeVectorFlat, VectorFlat: &models.IndexVectorFlatParameters{VectorSize: verifDim, DistanceMetric: models.DistanceEuclidean}}}
+	case 3: // "vector" indexed flat with another dimension, plus a stray vamana block (schema validation accepts extra blocks)
+		return models.IndexSchema{"vector": {Type: models.IndexTypeVectorFlat, VectorFlat: &models.IndexVectorFlatParameters{VectorSize: verifDim + 1, DistanceMetric: models.DistanceEuclidean}, VectorVamana: vam}}
 	}
 	return models.IndexSchema{"vector": {Type: models.IndexTypeVectorVamana, VectorVamana: vam}}
 }
@@ -212,7 +218,7 @@ func verifServeH(handler http.HandlerFunc, body []byte, maxPointSize int, varied
 }
 
 func verifNewCluster() *verifClusterStub {
-	verifSchemaKind = nondetIntRange(0, vparam("SCHEMAS", 2))
+	verifSchemaKind = nondetIntRange(0, vparam("SCHEMAS", 3))
 	c := &verifClusterStub{schema: verifSchema()}
 	c.storedPlan = models.UserPlan{Name: "stale", MaxPointSize: 1}
 	verifCluster = c
@@ -350,5 +356,29 @@ func VerifHandleGetCollection() {
 	vcover("reached")
 	if c.precondOK {
 		vassert("get-collection-is-answered-without-a-server-error", w.status < 500)
+	}
+}
+
+func VerifHandleListCollections() {
+	c := verifNewCluster()
+	kind := verifSchemaKind
+	if err := c.schema.Validate(); err != nil {
+		vassume(false) // only schemas collection creation accepts
+	}
+	sdbh := &SemaDBHandlers{}
+	plans := map[string]models.UserPlan{"basic": {Name: "basic", MaxCollections: 2, MaxCollectionPointCount: 100, MaxPointSize: 100}}
+	r := &http.Request{Method: "GET", Header: http.Header{}}
+	r.Header["X-User-Id"] = []string{"alice"}
+	r.Header["X-Plan-Id"] = []string{"basic"}
+	w := &verifWriter{hdr: http.Header{}}
+	middleware.AppHeaderMiddleware(plans, http.HandlerFunc(sdbh.HandleListCollections)).ServeHTTP(w, r)
+	vcover("reached")
+	_ = kind
+	vassert("exactly-one-status-written", w.headerCalls == 1)
+	if c.fail == 0 {
+		vassert("listing-is-answered-200-whatever-api-version-made-the-collections", w.status == 200)
+	}
+	for _, u := range c.users {
+		vassert("listing-is-made-for-the-callers-user-id", u == "alice")
 	}
 }
